@@ -202,3 +202,57 @@ func TestChoices(t *testing.T) {
 		}
 	}
 }
+
+// the encryption hooks of both libraries fit together (a XOR "cipher" stands
+// in for indep/secure)
+func TestEncryptHook(t *testing.T) {
+	xor := func(ref obj.Ref, data []byte) []byte {
+		out := make([]byte, len(data))
+		for i, c := range data {
+			out[i] = c ^ byte(0x40+ref.Num)
+		}
+		return out
+	}
+	doc := &ser.Doc{EncryptRef: obj.Ref{Num: 5}, Revisions: []ser.Revision{{Kind: ser.Stream, Ops: []ser.Op{
+		{Num: 1, Kind: ser.Define, Value: obj.Dict{"Type": obj.Name("Catalog"), "Pages": obj.Ref{Num: 2}, "S": obj.Str("secret")}},
+		{Num: 2, Kind: ser.Define, Value: obj.Dict{"Type": obj.Name("Pages"), "Kids": obj.Array{}, "Count": obj.Int(0)}},
+		{Num: 3, Kind: ser.Define, Value: &obj.Stream{Dict: obj.Dict{"T": obj.Str("in dict")}, Raw: []byte("stream data")}, Length: ser.LenIndirect},
+		{Num: 4, Kind: ser.Define, Value: obj.Array{obj.Str("compressed"), obj.Int(7)}, InObjStm: true},
+		{Num: 5, Kind: ser.Define, Value: obj.Dict{"Filter": obj.Name("Standard"), "O": obj.Str("not encrypted")}},
+	}, Trailer: obj.Dict{"Root": obj.Ref{Num: 1}, "Encrypt": obj.Ref{Num: 5}, "ID": obj.Array{obj.Str("id-a"), obj.Str("id-b")}}}}}
+	for seed := int64(0); seed < 40; seed++ {
+		res, err := ser.RenderResult(doc, &ser.Options{Seed: seed, Encrypt: func(ref obj.Ref, isStream bool, data []byte) []byte { return xor(ref, data) }})
+		if err != nil {
+			t.Fatal(err)
+		}
+		if bytes.Contains(res.Bytes, []byte("secret")) || bytes.Contains(res.Bytes, []byte("stream data")) {
+			t.Fatalf("seed %d: plaintext in the file", seed)
+		}
+		f, err := strict.ParseOpts(res.Bytes, &strict.Options{Decrypt: func(ref obj.Ref, isStream bool, data []byte) ([]byte, error) { return xor(ref, data), nil }})
+		if err != nil {
+			t.Fatalf("seed %d: %v", seed, err)
+		}
+		if !f.Encrypted {
+			t.Fatal("not recognised as encrypted")
+		}
+		for _, p := range strict.WellFormed(f) {
+			t.Errorf("seed %d: %s", seed, p)
+		}
+		for _, op := range doc.Revisions[0].Ops {
+			ref := obj.Ref{Num: op.Num}
+			v, ok := f.Lookup(ref)
+			if !ok {
+				t.Fatalf("seed %d: object %d not found", seed, op.Num)
+			}
+			if o, idx := f.LookupObject(ref); idx < 0 && o != nil && ref != doc.EncryptRef {
+				v, err = f.DecryptValue(ref, v)
+				if err != nil {
+					t.Fatal(err)
+				}
+			}
+			if !obj.Equal(stripLength(v), op.Value) {
+				t.Errorf("seed %d: object %d = %s, want %s", seed, op.Num, obj.String(v), obj.String(op.Value))
+			}
+		}
+	}
+}
